@@ -26,6 +26,7 @@ def run(rep, tier, seed):
     rep.level = "exploration"
     rep.assume("A1", "A4", "A6", "A8")
     D.run_static(rep, "C04", ("purity",), only_files=("bin_completion",))
-    D.run_contracts(rep, "C04", [("contracts.bincompletion", "bin_completion")], tier, also=("C03",))
+    from contracts import bincompletion as BC
+    D.run_contracts(rep, "C04", [("contracts.bincompletion", "bin_completion")] + BC.HELPERS, tier, also=("C03",))
     t3(rep, tier, seed)
     D.link_falsifier(rep)
